@@ -1,0 +1,75 @@
+//go:build verif
+
+package header
+
+// Contracts for the deductive verifier in /verif (govc). Comments only; build tag "verif".
+//
+// C16: every check the property names is made, and made with exactly the operands it names. The
+// cryptographic and structural checks of cometbft / celestia-app are uninterpreted predicates and
+// functions of their arguments (assumed to be what their names say: A-HASH, A-P2P in DESIGN.md).
+
+//@ pure func hdrBasicOK(h core.Header) bool
+//@ extern (github.com/cometbft/cometbft/types.Header).ValidateBasic
+//@   ensures err == nil ==> hdrBasicOK(h)
+//@ pure func hdrHash(h core.Header) []byte
+//@ extern (*github.com/cometbft/cometbft/types.Header).Hash
+//@   ensures result == hdrHash(deref(h))
+//@ pure func commitBasicOK(c core.Commit) bool
+//@ extern (*github.com/cometbft/cometbft/types.Commit).ValidateBasic
+//@   ensures err == nil ==> commitBasicOK(deref(commit))
+//@ pure func valsBasicOK(v core.ValidatorSet) bool
+//@ extern (*github.com/cometbft/cometbft/types.ValidatorSet).ValidateBasic
+//@   ensures err == nil ==> valsBasicOK(deref(vals))
+//@ pure func valsHash(v core.ValidatorSet) []byte
+//@ extern (*github.com/cometbft/cometbft/types.ValidatorSet).Hash
+//@   ensures result == valsHash(deref(vals))
+//@ pure func commitLightOK(v core.ValidatorSet, chainID string, blockID core.BlockID, height int64, commit *core.Commit) bool
+//@ extern (*github.com/cometbft/cometbft/types.ValidatorSet).VerifyCommitLight
+//@   params vals chainID blockID height commit
+//@   ensures err == nil ==> commitLightOK(deref(vals), chainID, blockID, height, commit)
+//@ pure func commitLightTrustingOK(v core.ValidatorSet, chainID string, commit *core.Commit, num int64, den int64) bool
+//@ extern (*github.com/cometbft/cometbft/types.ValidatorSet).VerifyCommitLightTrusting
+//@   params vals chainID commit trustLevel
+//@   ensures err == nil ==> commitLightTrustingOK(deref(vals), chainID, commit, trustLevel.Numerator, trustLevel.Denominator)
+//@ pure func dahHash(d da.DataAvailabilityHeader) []byte
+//@ extern (*github.com/celestiaorg/celestia-app/v9/pkg/da.DataAvailabilityHeader).Hash
+//@   ensures result == dahHash(deref(dah))
+//@ pure func dahBasicOK(d da.DataAvailabilityHeader) bool
+//@ extern (*github.com/celestiaorg/celestia-app/v9/pkg/da.DataAvailabilityHeader).ValidateBasic
+//@   ensures err == nil ==> dahBasicOK(deref(dah))
+//@ extern (github.com/cometbft/cometbft/libs/bytes.HexBytes).Bytes
+//@   ensures result == bz
+
+//@ func (*ExtendedHeader).Height
+//@   property C16
+//@   pure
+//@   ensures result == uint64(eh.RawHeader.Height)
+
+//@ func (*ExtendedHeader).ChainID
+//@   property C16
+//@   ensures result == eh.RawHeader.ChainID
+
+//@ func (*ExtendedHeader).Hash
+//@   property C16
+//@   ensures result == eh.Commit.BlockID.Hash
+
+//@ func (*ExtendedHeader).LastHeader
+//@   property C16
+//@   ensures result == eh.RawHeader.LastBlockID.Hash
+
+//@ func (*ExtendedHeader).Validate
+//@   property C16
+//@   ensures err == nil ==> hdrBasicOK(eh.RawHeader) && commitBasicOK(deref(eh.Commit)) && valsBasicOK(deref(eh.ValidatorSet)) && dahBasicOK(deref(eh.DAH))
+//@   ensures err == nil ==> eh.RawHeader.Version.App != 0 && eh.RawHeader.Version.App <= appconsts.Version
+//@   ensures err == nil ==> bytesEq(eh.RawHeader.ValidatorsHash, valsHash(deref(eh.ValidatorSet)))
+//@   ensures err == nil ==> bytesEq(dahHash(deref(eh.DAH)), eh.RawHeader.DataHash)
+//@   ensures err == nil ==> eh.Commit.Height == eh.RawHeader.Height
+//@   ensures err == nil ==> bytesEq(hdrHash(eh.RawHeader), eh.Commit.BlockID.Hash)
+//@   ensures err == nil ==> commitLightOK(deref(eh.ValidatorSet), eh.RawHeader.ChainID, eh.Commit.BlockID, eh.RawHeader.Height, eh.Commit)
+
+// Verification against a trusted header: adjacent heights link by hashes, otherwise the trusted
+// validators must have signed the untrusted commit with the default trust level.
+//@ func (*ExtendedHeader).Verify
+//@   property C16
+//@   ensures err == nil && uint64(uint64(eh.RawHeader.Height) + 1) == uint64(untrst.RawHeader.Height) ==> bytesEq(untrst.RawHeader.ValidatorsHash, eh.RawHeader.NextValidatorsHash) && bytesEq(untrst.RawHeader.LastBlockID.Hash, eh.Commit.BlockID.Hash)
+//@   ensures err == nil && uint64(uint64(eh.RawHeader.Height) + 1) != uint64(untrst.RawHeader.Height) ==> commitLightTrustingOK(deref(eh.ValidatorSet), eh.RawHeader.ChainID, untrst.Commit, light.DefaultTrustLevel.Numerator, light.DefaultTrustLevel.Denominator)
